@@ -100,6 +100,8 @@ def label(shape, cplx):
         x = x + 1j * x
     if _DT[0] != "default":
         x = x.astype(_DT[0])
+    if _MG[0] and x.dtype == np.int64:
+        x = x + (1 << 55)        # integers that float64 cannot represent exactly
     if _MG[0] and x.dtype.kind in "fc":
         x = x * x.dtype.type(2.0 ** _MG[0])      # ~1e-10 / ~1e+8: still exactly representable
     if _NC[0] in (True, "strided") and x.ndim >= 1:
